@@ -166,11 +166,19 @@ func TestVerifC15Daemon(t *testing.T) {
 // for the long-term scalars and for the key shares recorded in each node's dkg.db.
 func TestVerifC15FaultLogs(t *testing.T) {
 	rec := stats.Open(t, "C15")
+	faultCase := 0
 	rapid.Check(t, func(rt *rapid.T) {
 		seed := rapid.Uint64Range(1, 1<<32).Draw(rt, "keyseed")
 		scheme := rapid.SampledFrom(fx.SchemeNames).Draw(rt, "scheme")
-		fault := rapid.SampledFrom([]string{"share-path-is-a-directory", "group-path-is-a-directory", "share-path-is-a-directory", "none"}).Draw(rt, "fault")
+		fault := rapid.SampledFrom([]string{"share-path-is-a-directory", "group-path-is-a-directory", "share-file-preexists-world-readable", "share-file-preexists-world-readable", "none"}).Draw(rt, "fault")
 		stage := rapid.SampledFrom([]string{"first-dkg", "resharing"}).Draw(rt, "stage")
+		if faultCase == 0 {
+			// the first case of shard k uses fault kind k (both stages over the shards): every run covers every kind
+			kinds := []string{"share-file-preexists-world-readable", "share-path-is-a-directory", "group-path-is-a-directory", "share-file-preexists-world-readable", "none", "share-path-is-a-directory"}
+			fault = kinds[stats.Shard()%len(kinds)]
+			stage = []string{"resharing", "first-dkg"}[(stats.Shard()/3)%2]
+		}
+		faultCase++
 		victim := rapid.IntRange(0, 2).Draw(rt, "victim")
 		desc := fmt.Sprintf("faultlogs %s fault=%s at %s on node %d seed=%d", scheme, fault, stage, victim, seed)
 		wd := time.AfterFunc(8*time.Minute, func() {
@@ -198,6 +206,18 @@ func TestVerifC15FaultLogs(t *testing.T) {
 				name = "drand_group.toml"
 			}
 			_ = os.MkdirAll(dir, 0o700)
+			if fault == "share-file-preexists-world-readable" {
+				// a node folder restored by a tool that drops file modes: the share file is there already, readable by everybody;
+				// the share of the next epoch is written into it
+				path := filepath.Join(dir, name)
+				old, _ := os.ReadFile(path)
+				_ = os.Remove(path)
+				if err := os.WriteFile(path, old, 0o644); err != nil {
+					rt.Fatalf("harness: cannot plant the fault: %v", err)
+				}
+				_ = os.Chmod(path, 0o644)
+				return
+			}
 			_ = os.Remove(filepath.Join(dir, name))
 			if err := os.Mkdir(filepath.Join(dir, name), 0o700); err != nil {
 				rt.Fatalf("harness: cannot plant the fault: %v", err)
@@ -271,6 +291,23 @@ func TestVerifC15FaultLogs(t *testing.T) {
 			if who := verifsecretscan.Find([]byte(e), secrets); who != "" {
 				fail("C15/secret-in-response", fmt.Sprintf("the error text of an operator command contains the %s: %s", who, trunc(e, 400)))
 			}
+		}
+		// every file of every node that holds one of the secrets is readable by its owner only
+		for i, nd := range c.nodes {
+			_ = filepath.Walk(nd.dir, func(path string, info os.FileInfo, err error) error {
+				if err != nil || info.IsDir() || info.Size() > 8<<20 {
+					return nil
+				}
+				data, rerr := os.ReadFile(path)
+				if rerr != nil {
+					return nil
+				}
+				scanned++
+				if who := verifsecretscan.Find(data, secrets); who != "" && info.Mode().Perm()&0o077 != 0 {
+					fail("C15/secret-file-readable-by-others", fmt.Sprintf("%s of node %d holds the %s and has mode %04o", strings.TrimPrefix(path, nd.dir), i, who, info.Mode().Perm()))
+				}
+				return nil
+			})
 		}
 		rec.LabelN("artefacts-scanned", int64(scanned))
 		labels := []string{"fault-logs", "fault/" + fault, "stage/" + stage, fmt.Sprintf("fault-surfaced-in-log=%v", faultLogged)}
